@@ -55,6 +55,7 @@ type Dims struct {
 	MergeMRG    int     `json:"merge_mrg"`   // MaxRowGroupRows of the merging engine
 	Batch       int     `json:"batch"`       // extra filler rows per flush group (large results / several batches)
 	LegacyMeta  bool    `json:"legacy_meta"` // the MetaStore yields uncompressed blocks with Compression "" (what files written before "" was normalised look like)
+	Reject      bool    `json:"reject"`      // a batch rejected as a whole is sent at a partition with buffered rows before each flush
 }
 
 type Case struct {
@@ -368,6 +369,7 @@ func (g *gen) NewCase(id int, thorough bool) *Case {
 	d.MergeFiles = []int{2, 3, 10}[g.pick(3)]
 	d.MergeMRG = []int{2, 4, 1000}[g.pick(3)]
 	d.LegacyMeta = g.pick(5) == 0
+	d.Reject = g.pick(5) == 0
 	if thorough && g.pick(10) == 0 {
 		d.Batch = 150 + g.pick(200)
 	} else if g.pick(25) == 0 {
